@@ -68,8 +68,7 @@ BOUNDS = {
     "(mu,lambda) in {(1,1),(1,10),(3,0)}; eta in {0,0.25,1/3}: C(2,2)~, T(2,2)~ all 256 "
     "assignments, Tet(1,1,1)~, C(2,2,2)@shear independent sets <=2, all three Lame pairs; scale "
     "in {1e-3,1e3}: same grids, side-wise + <=2 flips / <=1; 5 dart grids; num_subproblems in {2,3} "
-    "as quick with <=2 flips and all Lame pairs; prisms: independent sets <=2 on all four grids, all "
-    "Lame pairs",
+    "as quick with <=2 flips and all Lame pairs; prisms as quick with all Lame pairs",
 }
 MIN_CLASSES = 6
 CHUNK = 4
@@ -144,7 +143,7 @@ def _axes_cases(tier):
             out += _indep_cases(spec, 1, 1, mulam=ml, nsub=k)
     # mixed face types (prisms): all-Dirichlet + EVERY single Neumann face, plus admissible pairs
     for i, spec in enumerate(PRISMS):
-        pairs = (not quick) or i in (1, 3)
+        pairs = i in (1, 3)  # pairs on the 8-cell grids only (the 16-cell grids have ~400 admissible pairs)
         out += _indep_cases(spec, 2 if pairs else 1, 4 if pairs else 1, mulam=ml)
     out += _indep_cases(PRISMS[1], 1, 1, mulam=ml, reuse=True)
     out += _indep_cases(PRISMS[1], 1, 1, mulam=ml, nsub=2)
